@@ -98,6 +98,21 @@ class AppError(Exception):
     """A picklable application exception."""
 
 
+class TwoArgError(Exception):
+    """Pickles (by reference, args = (a,)) but cannot be loaded again: __init__ wants two arguments."""
+
+    def __init__(self, a, b):
+        super().__init__(a)
+        self.b = b
+
+
+class BadStrError(Exception):
+    """str() of the exception raises."""
+
+    def __str__(self):
+        return self.no_such_attribute
+
+
 # --------------------------------------------------------------------------------------
 # program generator
 # --------------------------------------------------------------------------------------
@@ -125,6 +140,12 @@ BYTES_VALUES = [repr(b"\x89PNG\r\n"), repr(b""), repr(b"IHDR...."), repr(_pickle
 KINDS = ["func", "func", "func", "method", "nested", "lambda", "genexpr", "classbody", "relay", "relay", "recurse"]
 HOWS = ["call", "call", "call", "call", "ctx", "cause", "from_none", "finally", "reraise", "with", "cause_other"]
 BOTTOMS = ["raise", "raise", "zerodiv", "keyerror", "apperror", "ctx_bottom", "cause_bottom", "assert"]
+# candidate C17-2: the exception OBJECT (not a local) does not survive a pickle round trip, or has no str()
+EXC_BOTTOMS = ["exc_lambda_arg", "exc_local_class", "exc_lock_attr", "exc_twoarg", "exc_badstr"]
+# candidate C17-4: a cyclic chain (`raise e from e`; a.__cause__ = b, b.__cause__ = a)
+CYCLE_HOWS = ["cycle", "cycle2"]
+# candidate C17-1: a frame whose current line (f_lineno) is not the line of its traceback entry, or is None
+STAR_HOWS = ["star", "star_reraise"]
 
 
 def _gen_value(rng, tog_ids):
@@ -175,6 +196,7 @@ def gen_program(rng, max_steps=8):
     blocks = {f: [] for f in files}
     relay_defined = set()
     chained = 0
+    cyclic = False
     for i in range(nsteps):
         f = rng.choice(files)
         bottom = i == nsteps - 1
@@ -183,8 +205,24 @@ def gen_program(rng, max_steps=8):
             kind = "func"
         if bottom:
             how = rng.choice(BOTTOMS)
+            r = rng.random()
+            if r < 0.09:
+                how = rng.choice(EXC_BOTTOMS)
+            elif r < 0.105:
+                how = "cycle_bottom"
+                cyclic = True
         else:
             how = rng.choice(HOWS)
+            r = rng.random()
+            if r < 0.012 and chained < 3:
+                how = rng.choice(CYCLE_HOWS)
+                cyclic = True
+                chained += 1
+            elif r < 0.04:
+                how = rng.choice(STAR_HOWS)
+            elif r < 0.05 and chained < 3:
+                how = "ctx_unpicklable_exc"
+                chained += 1
             if how in ("ctx", "cause", "from_none", "cause_other"):
                 if chained >= 3:
                     how = "call"
@@ -193,7 +231,7 @@ def gen_program(rng, max_steps=8):
         blocks[f].append(_render_step(rng, i, kind, how, bottom, tog_ids, f, relay_defined))
     out = {}
     for f in files:
-        src = ["import os as _os", "from gen_c17 import Tog, P, BadReduce, Ctx, AppError, REG as _REG", ""]
+        src = ["import os as _os", "from gen_c17 import Tog, P, BadReduce, Ctx, AppError, TwoArgError, BadStrError, REG as _REG", ""]
         for b in blocks[f]:
             src.extend(b)
             src.append("")
@@ -202,7 +240,7 @@ def gen_program(rng, max_steps=8):
     main = None
     if rng.random() < 0.015:
         # an exception object that was never raised: no traceback, no frames
-        return dict(files=out, entry="unraised", main=None, n_tog=len(tog_ids))
+        return dict(files=out, entry="unraised", main=None, n_tog=len(tog_ids), cyclic=cyclic)
     if rng.random() < 0.2:
         entry = "module"
         main = "main_script.py"
@@ -210,7 +248,7 @@ def gen_program(rng, max_steps=8):
         out[main] = ("from gen_c17 import Tog, P, BadReduce, REG as _REG\nimport os as _os\n"
                      + "".join("%s = %s\n" % (n, v) for n, v in ls if not n.startswith("__"))
                      + "_REG['s0'](0)\n")
-    return dict(files=out, entry=entry, main=main, n_tog=len(tog_ids))
+    return dict(files=out, entry=entry, main=main, n_tog=len(tog_ids), cyclic=cyclic)
 
 
 def _action_lines(rng, i, how, bottom, var="_i"):
@@ -233,6 +271,18 @@ def _action_lines(rng, i, how, bottom, var="_i"):
         if how == "cause_bottom":
             return ["try:", "    q = {}['missing']", "except KeyError as err:",
                     "    raise RuntimeError('wrapped') from err"]
+        if how == "cycle_bottom":
+            return ["try:", "    q = {}['missing']", "except KeyError as err:", "    raise err from err"]
+        if how == "exc_lambda_arg":
+            return ["raise AppError('app', (lambda: %s))" % var]
+        if how == "exc_local_class":
+            return ["class LocalError(Exception):", "    pass", "raise LocalError('local %d' % " + var + ")"]
+        if how == "exc_lock_attr":
+            return ["err = AppError('locked')", "err.lock = __import__('threading').Lock()", "raise err"]
+        if how == "exc_twoarg":
+            return ["raise TwoArgError('two', %s)" % var]
+        if how == "exc_badstr":
+            return ["raise BadStrError('nostr')"]
         raise AssertionError(how)
     if how == "call":
         return [rng.choice(["return " + nxt, "r = " + nxt, nxt])]
@@ -251,6 +301,18 @@ def _action_lines(rng, i, how, bottom, var="_i"):
         return ["try:", "    " + nxt, "except Exception:", "    seen = True", "    raise"]
     if how == "with":
         return ["with Ctx() as cm:", "    " + nxt]
+    if how == "cycle":
+        return ["try:", "    " + nxt, "except Exception as err:", "    raise err from err"]
+    if how == "cycle2":
+        return ["try:", "    " + nxt, "except Exception as err:", "    new = RuntimeError('cyc')", "    err.__cause__ = new",
+                "    raise new from err"]
+    if how == "star":
+        # a non-matching except*: the exception leaves the frame from an instruction without a line
+        return ["try:", "    " + nxt, "except* OSError:", "    pass"]
+    if how == "star_reraise":
+        return ["try:", "    " + nxt, "except* OSError:", "    seen = True", "    raise"]
+    if how == "ctx_unpicklable_exc":
+        return ["try:", "    " + nxt, "except Exception:", "    raise AppError('ctx', (lambda: 0))"]
     raise AssertionError(how)
 
 
@@ -400,6 +462,15 @@ def raise_program(prog, root, names):
     return exc
 
 
+class FrameList(list):
+    """The list `dry_frames` returns; `tblines[i]` is the line of the traceback entry of item i (the line the stack
+    trace displays), which differs from the live `f_lineno` in item i when the frame ran on after the failure."""
+
+    def __init__(self, *a):
+        super().__init__(*a)
+        self.tblines = []
+
+
 def dry_frames(prog):
     """Frames (bottom-first, following __cause__ or __context__) of the program, for choosing selectors.
     -> list of (relfile, lineno, name, qualname).  Uses a throw-away directory-less compile."""
@@ -408,19 +479,24 @@ def dry_frames(prog):
     try:
         names = load_program(prog, root, write=False)
         exc = raise_program(prog, root, names)
-        out = []
+        out = FrameList()
         e = exc
         guard = 0
-        while e is not None and guard < 50:
+        seen = set()
+        while e is not None and guard < 50 and id(e) not in seen:
             guard += 1
+            seen.add(id(e))
             tb = e.__traceback__
             cur = []
             while tb is not None:
                 fr = tb.tb_frame
-                cur.append((os.path.relpath(fr.f_code.co_filename, root), fr.f_lineno, fr.f_code.co_name,
-                            fr.f_code.co_qualname, sorted(fr.f_locals)))
+                # f_lineno is None when the frame was left from an instruction without a line (except*)
+                cur.append(((os.path.relpath(fr.f_code.co_filename, root), fr.f_lineno or 0, fr.f_code.co_name,
+                             fr.f_code.co_qualname, sorted(fr.f_locals)), tb.tb_lineno))
                 tb = tb.tb_next
-            out.extend(reversed(cur))
+            for item, tbl in reversed(cur):
+                out.append(item)
+                out.tblines.append(tbl)
             e = e.__cause__ or e.__context__
         return out
     finally:
@@ -434,7 +510,11 @@ def dry_frames(prog):
 def _gen_pattern(rng, frames):
     """One 'file:line:func' pattern aimed at (or near) a frame of the program."""
     if frames and rng.random() < 0.93:
-        rel, line, name, qual, _ = rng.choice(frames)
+        ix = rng.randrange(len(frames))
+        rel, line, name, qual, _ = frames[ix]
+        tbl = getattr(frames, "tblines", None)
+        if tbl and len(tbl) == len(frames) and tbl[ix] and tbl[ix] != line and rng.random() < 0.5:
+            line = tbl[ix]                       # the line the stack trace displays for this entry
     else:
         rel, line, name, qual = "nowhere.py", 3, "nofunc", "nofunc"
     base = os.path.basename(rel)
